@@ -67,6 +67,7 @@ static int decide(const char *fn, long *idx_out) {
     for (int i = 0; i < NPLAN; i++) {
         struct plan_item *p = &PLAN[i];
         if (p->used) continue;
+        if (!p->by_index && p->occ == -1 && !strcmp(p->fn, fn)) return p->err;          /* "fn#*:errno": every occurrence */
         if ((p->by_index && p->index == idx) || (!p->by_index && p->occ == occ && !strcmp(p->fn, fn))) { p->used = 1; return p->err; }
     }
     return 0;
@@ -85,13 +86,13 @@ static void hexarg(char *out, size_t cap, const char *s) { hexinto(out, cap, (co
 /* ------------------------------------------------------------------ harness API */
 void verif_fault_begin(const char *plan, int fd) {
     NPLAN = 0; NOCC = 0; gidx = 0; logfd = fd;
-    char buf[1024]; strncpy(buf, plan ? plan : "", sizeof buf - 1); buf[sizeof buf - 1] = 0;
+    char buf[4096]; strncpy(buf, plan ? plan : "", sizeof buf - 1); buf[sizeof buf - 1] = 0;
     for (char *sp = NULL, *t = strtok_r(buf, ",", &sp); t && NPLAN < MAXPLAN; t = strtok_r(NULL, ",", &sp)) {
         struct plan_item *p = &PLAN[NPLAN]; memset(p, 0, sizeof *p);
         char *colon = strrchr(t, ':'); if (!colon) continue;
         *colon = 0; p->err = atoi(colon + 1);
         char *hash = strchr(t, '#');
-        if (hash) { *hash = 0; strncpy(p->fn, t, sizeof p->fn - 1); p->occ = atol(hash + 1); p->by_index = 0; }
+        if (hash) { *hash = 0; strncpy(p->fn, t, sizeof p->fn - 1); p->occ = hash[1] == '*' ? -1 : atol(hash + 1); p->by_index = 0; }
         else { p->index = atol(t); p->by_index = 1; }
         NPLAN++;
     }
